@@ -46,7 +46,10 @@ def main():
                 "engine": "pv",
                 "level_claimed": {
                     "category": getattr(mod, "LEVEL", "exploration"),
-                    "text": getattr(mod, "LEVEL_TEXT", mod.RULE),
+                    "text": getattr(mod, "LEVEL_TEXT", None) or (
+                        "Exploration by generated-input search: " + mod.TECHNIQUE + ". The property held (or failed only in "
+                        "the listed known findings) on every case generated within the stated bounds; exhaustive only where "
+                        "the evidence says so; not a proof of absence. Domain and oracle: " + mod.RULE),
                     "design_ref": f"DESIGN.md section 4, {pid}",
                 },
                 "level_note": "; ".join(getattr(mod, "ASSUMPTIONS", [])) or "none",
